@@ -30,7 +30,7 @@ SPEC = {
                 "renders non-string keys into the tree) -- plain-data clause of the oracle. No axioms.",
         "design_ref": "DESIGN.md section 6 C02"},
     "streams": ["roundtrip"],
-    "witnesses": ["F1", "F14", "F41", "F50"],
+    "witnesses": ["F1", "F14", "F15", "F41", "F50"],
     "rule": "deterministic matrix (one case per persistent field type and container kind x every format/option, typed dicts with binary (hex/base64) and "
             "integer KEY fields at the root / nested / in list items, the finding regions F34/F35/F36/F53, stale list items (F50 regression), "
             "virtual/method fields, normalisation cases) plus seeded random schemas (depth <= 3, lists of schemas, config types, dynamic) with "
